@@ -898,6 +898,29 @@ theorem max_line_length_short_when_view_wider_than_terminal_witness
   revert h
   decide
 
+/-- On the repaired tree (fix 3831e3a) the width in the formula IS the width the panels are derived from — for every
+terminal width and every `--width`: the hypothesis `viewWidth ≤ formulaWidth` of the theorems above always holds.
+Proved by unfolding the regenerated `Generated.maxLenWidthArg`; with the terminal width passed instead (the code as
+pinned) this does not build. -/
+theorem view_width_is_formula_width (T : Nat) (fw : Option Nat) : viewWidth T fw ≤ formulaWidth T fw := by
+  unfold viewWidth formulaWidth Generated.maxLenWidthArg
+  cases fw <;> simp
+
+/-- **line_that_fits_rows_not_truncated_any_view**: `line_that_fits_rows_not_truncated` without the proviso about the
+view width — whatever `--width` and the terminal are, a hunk line that fits on the rows `--wrap-max-lines N` permits is
+not cut at ingest. -/
+theorem line_that_fits_rows_not_truncated_any_view (N mll T gutter len : Nat) (fw : Option Nat) (ansi markers : Bool)
+    (panel : Nat) (sw : List UInt8 → Bool) (raw tail : List Item)
+    (hN : 1 ≤ N) (hT : 2 ≤ formulaWidth T fw / 2)
+    (hp : panel = (panelWidths (viewWidth T fw) ansi).1 ∨ panel = (panelWidths (viewWidth T fw) ansi).2)
+    (hfit : measure raw ≤ rowsCapacity (N + 1) (availableLineWidth panel gutter markers) + 1) :
+    ingestTrunc (configMaxLen true (some N) mll T fw) len sw raw tail = .ok raw :=
+  line_that_fits_rows_not_truncated N mll T gutter len fw ansi markers panel sw raw tail hN
+    (view_width_is_formula_width T fw) hT hp hfit
+
+-- `--width 400` on an 80-column terminal, `--wrap-max-lines 5 --max-line-length 100`: the limit now follows the view
+example : configMaxLen true (some 5) 100 80 (some 400) = 1500 := by decide
+
 end MaxLineLength
 
 end C07
